@@ -1140,7 +1140,7 @@ func main() {
 	nl := r.N(16, 64)
 	vh.Parallel(nl, 8, func(i int) { listenTrial(r, bin, i) })
 	r.Require("listen_trials", int64(nl/2))
-	nco := r.N(6, 40)
+	nco := r.N(8, 40)
 	vh.Parallel(nco, 3, func(i int) { convertedOffTrial(r, i) })
 	r.Count("cases", nd+nt+nr+nbin+nsig+nl)
 	r.Require("default_trials", int64(nd))
